@@ -1845,6 +1845,7 @@ class _SignatureSelector(Parameter):
         SelectorBase._slot_defaults, _objects=_compute_selector_default,
         compute_default_fn=None, check_on_set=_compute_selector_checking_default,
         allow_None=None, instantiate=False, default=None,
+        names=lambda p: {},
     )
 
     @classmethod
@@ -1940,7 +1941,9 @@ class Selector(SelectorBase, _SignatureSelector):
             self.names = objects
             self._objects = list(objects.values())
         else:
-            self.names = {}
+            # an unspecified `objects` leaves `names` Undefined, so that it is
+            # inherited together with `_objects`
+            self.names = Undefined if objects is Undefined else {}
             self._objects = objects
 
     # Note that if the list of objects is changed, the current value for
